@@ -392,6 +392,12 @@ def hItems (env : Env) (rec : Rec) (ctx : Ctx) (schema doc : Val) (f : Key) (c v
       let e := ({ code := Code.BAD_ITEMS, rule := some "items", info := [], kids := cerrs } : ESpec)
       pure [e]
 
+/-- the constraint is the name of a rules set and of no schema -/
+def rulesSetName (env : Env) (c : Val) : Bool :=
+  match c with
+  | .str name => (env.schemas name).isNone && (env.rulesSets name).isSome
+  | _ => false
+
 def hSchema (env : Env) (rec : Rec) (ctx : Ctx) (schema doc : Val) (f : Key) (c v : Val) (upd : Bool) :
     M HOut := do
   if c.isNone then return {}
@@ -407,6 +413,12 @@ def hSchema (env : Env) (rec : Rec) (ctx : Ctx) (schema doc : Val) (f : Key) (c 
       pure { errs := [e] }
   | .dict _ =>
     let rs ← fieldRules env schema f "__validate_schema_mapping"
+    -- a name of a rules set (for the items of a sequence) met by a mapping: reported like the rules set inline
+    -- (after the repair of F40)
+    if rulesSetName env c then
+      let e := ({ code := Code.BAD_TYPE_FOR_SCHEMA, rule := some "schema", info := [], kids := [] } : ESpec)
+      pure { errs := [e], dropAll := true }
+    else do
     let cschema ← match env.resolveSchema c with
       | some s => pure s
       | none => raisePy "SchemaError" "__init_processing"
